@@ -604,10 +604,10 @@ func c44Scenarios() []c44Params {
 		return []c44Params{mk(n, win, f, tk, stops, joins)}
 	}
 	if !r.Thorough() {
-		return []c44Params{mk(3, 1, 1, 1, 1, 1)} // ~300k transitions
+		return []c44Params{mk(3, 1, 1, 0, 1, 1), mk(2, 1, 1, 1, 1, 1)} // 84,942 + 107,153 transitions
 	}
-	// ascending (estimated) cost
-	return []c44Params{mk(2, 2, 1, 1, 1, 1), mk(3, 1, 1, 1, 2, 2), mk(3, 1, 2, 0, 1, 1), mk(3, 1, 1, 2, 1, 1)}
+	// ascending (estimated) cost; the first has 300,087 transitions
+	return []c44Params{mk(3, 1, 1, 1, 1, 1), mk(2, 2, 1, 1, 1, 1), mk(3, 1, 1, 1, 2, 2), mk(3, 1, 2, 0, 1, 1), mk(3, 1, 1, 2, 1, 1)}
 }
 
 func TestVerifC44(t *testing.T) {
